@@ -265,7 +265,7 @@ func runSeriesCase(e *env, c *SpecCase, seed int64) {
 			driverError("QueryInstant: " + err.Error())
 			return
 		}
-		body, complete = collect(ch, 20*time.Second)
+		body, complete = collect(ch, 60*time.Second)
 	case "tail":
 		w, err := e.qr.Tail(ctx, q)
 		if err != nil {
@@ -279,7 +279,7 @@ func runSeriesCase(e *env, c *SpecCase, seed int64) {
 			if ok {
 				body = o.Str
 			}
-		case <-time.After(20 * time.Second):
+		case <-time.After(60 * time.Second):
 		}
 		w.Close()
 		go func() {
